@@ -167,6 +167,15 @@ def main(argv=None):
             n = cnt.get("cases", 1)
             jobs.extend((q, a.src, timeout_ms, all_findings, (k if n > 1 else None)) for k in range(n))
         parts = pool.map(_verify_one, jobs, chunksize=1)
+    # an obligation the solver did not decide within the budget is retried alone (fewer processes, four times the
+    # budget): a verdict must not depend on how busy the machine was during the first pass
+    retry = [k for k, o in enumerate(parts) if any(r.get("status") == "unknown" for r in o.get("results", []))]
+    if retry:
+        with mp.get_context("fork").Pool(min(4, len(retry))) as pool:
+            redo = pool.map(_verify_one, [(jobs[k][0], jobs[k][1], timeout_ms * 4, jobs[k][3], jobs[k][4]) for k in retry], chunksize=1)
+        for k, o in zip(retry, redo):
+            if not o.get("error"):
+                parts[k] = o
     merged = {}
     for o in pre_errors + parts:
         m = merged.setdefault(o["qual"], {"qual": o["qual"], "results": [], "error": None, "info": {}, "wall_s": 0})
